@@ -41,8 +41,9 @@ def Err.name : Err → String
 /-! ## Minimal state layer
 
 The state variables the vehicle models and the time model touch, each stored in the unit of its
-state feature.  `get` = convert(feature unit → caller unit); `add` = get, add, convert back
-(`StateModel::{get_time, add_time, get_distance, add_distance, get_energy, add_energy}`);
+state feature.  `get` = convert(feature unit → caller unit); `add` = stored value + convert(caller
+unit → feature unit)(amount) (`StateModel::{get_time, add_time, get_distance, add_distance,
+get_energy, add_energy}` as of /repo commit 7251c8c);
 `battery_state` is a custom floating-point feature (stored as is).  Self-contained on purpose; to be
 replaced by the shared `StateModel` model (C11) — only this section would change.
 -/
@@ -72,29 +73,25 @@ def getDistance (fu : FeatureUnits) (s : VState α) (u : DistanceUnit) : α := f
 def getLiquid (fu : FeatureUnits) (s : VState α) (u : EnergyUnit) : α := fu.liquid.convert u s.liquid
 def getElectric (fu : FeatureUnits) (s : VState α) (u : EnergyUnit) : α := fu.electric.convert u s.electric
 
-/-- `StateModel::add_time` -/
+/-- `StateModel::add_time`: the amount is converted to the feature's unit and added to the stored value -/
 def addTime (fu : FeatureUnits) (s : VState α) (t : α) (u : TimeUnit) : VState α :=
-  let prev := getTime fu s u
-  let next := prev + t
-  { s with time := u.convert fu.time next }
+  let delta := u.convert fu.time t
+  { s with time := s.time + delta }
 
 /-- `StateModel::add_distance` -/
 def addDistance (fu : FeatureUnits) (s : VState α) (d : α) (u : DistanceUnit) : VState α :=
-  let prev := getDistance fu s u
-  let next := prev + d
-  { s with distance := u.convert fu.distance next }
+  let delta := u.convert fu.distance d
+  { s with distance := s.distance + delta }
 
 /-- `StateModel::add_energy` on `energy_liquid` -/
 def addLiquid (fu : FeatureUnits) (s : VState α) (e : α) (u : EnergyUnit) : VState α :=
-  let prev := getLiquid fu s u
-  let next := prev + e
-  { s with liquid := u.convert fu.liquid next }
+  let delta := u.convert fu.liquid e
+  { s with liquid := s.liquid + delta }
 
 /-- `StateModel::add_energy` on `energy_electric` -/
 def addElectric (fu : FeatureUnits) (s : VState α) (e : α) (u : EnergyUnit) : VState α :=
-  let prev := getElectric fu s u
-  let next := prev + e
-  { s with electric := u.convert fu.electric next }
+  let delta := u.convert fu.electric e
+  { s with electric := s.electric + delta }
 
 end State
 
